@@ -25,7 +25,7 @@ from vlib.core import WORK, Result, assert_in_tree, exc_sig
 assert_in_tree(during, durqing, dusqing, holding)
 
 PID = "C23"
-RULE = ("cases: Durq or Dusq, optional preloaded values, <= 30 operations from push / pull / pull(emptive=False) / extend or "
+RULE = ("cases: Durq or Dusq, optionally constructed with values (duplicates included) before it is attached to the store, optional further values after attaching, <= 30 operations from push / pull / pull(emptive=False) / extend or "
         "update / remove (Dusq) / clear / count / push(None) / sync(force=True) over a 5 value domain of registered data objects (mutable and "
         "frozen, duplicates frequent), with 'reopen' (close store, reopen same directory, fresh object injected and synced) "
         "and 'snapshot' (copy of the live LMDB directory opened and compared) between any two operations; non-trivial = a "
@@ -48,17 +48,20 @@ def val(i):
 
 
 class Rig:
-    def __init__(self, kind):
+    def __init__(self, kind, pre=None):
         self.kind = kind
         shutil.rmtree(BOX, ignore_errors=True)
         os.makedirs(BOX)
         self.n = 0
-        self.open(fresh=True)
+        self.open(fresh=True, pre=pre)
 
-    def open(self, fresh=False, head=None):
+    def open(self, fresh=False, head=None, pre=None):
         self.subery = during.Subery(name="store", headDirPath=head or BOX, temp=False, reopen=True, reuse=True)
         self.hold = holding.Hold(_hold_subery=self.subery)
-        self.q = durqing.Durq() if self.kind == "durq" else dusqing.Dusq()
+        klas = durqing.Durq if self.kind == "durq" else dusqing.Dusq
+        # pre: values the queue already holds (constructor preload) BEFORE it is attached to the store: attaching it
+        # to an empty key must write exactly that content (sync -> pin)
+        self.q = klas(pre) if pre else klas()
         self.hold[KEY] = self.q            # inject -> sync with the durable copy
         self.sib = durqing.Durq() if self.kind == "durq" else dusqing.Dusq()
         self.hold[OTHER] = self.sib
@@ -81,9 +84,15 @@ class Rig:
 def run_case(case):
     r = Result()
     kind = case["kind"]
-    rig = Rig(kind)
-    model = []
     dusq = kind == "dusq"
+    model = []
+    pre = None
+    if case.get("preload"):
+        pre = [val(i) for i in case["preload"]]
+        for v in pre:
+            if not dusq or v not in model:
+                model.append(v)
+    rig = Rig(kind, pre=pre)
     dup_pushed = False
     pulled_after_dup = False
     reopen_after = False
@@ -104,7 +113,9 @@ def run_case(case):
         return True
 
     try:
-        if case["init"]:
+        if pre:
+            same("attach-preloaded")
+        if case["init"] and not r.failures:
             vs = [val(i) for i in case["init"]]
             if dusq:
                 rig.q.update(vs)
@@ -219,6 +230,8 @@ def run_case(case):
         rig.close()
     r.nontrivial = reopen_after
     r.labels.append(kind)
+    if pre:
+        r.labels.append("preloaded-before-attach")
     if dup_pushed:
         r.labels.append("duplicate-pushed")
     if reopen_after:
@@ -248,6 +261,7 @@ def _strategy(avoid_remove=False):
         lambda t: [["push", t[0]]] + t[1] + [["push", t[0]], ["pull"]] + t[2] + [t[3]] + t[4])
     return st.fixed_dictionaries({"kind": st.sampled_from(["durq", "dusq"]),
                                   "init": st.one_of(st.none(), st.lists(v, max_size=4)),
+                                  "preload": st.one_of(st.none(), st.none(), st.lists(v, min_size=1, max_size=5)),
                                   "ops": st.one_of(plain, seeded, seeded)})
 
 
